@@ -5,7 +5,7 @@ through annet's regexes or reverse templates.
 import copy
 from collections import OrderedDict as odict
 
-from .rulelang import Ctx, is_block
+from .rulelang import Ctx, blockish, is_block
 
 
 class SimError(Exception):
@@ -77,7 +77,7 @@ def expect(old, new, ctx: Ctx):
         if r.get("rewrite"):
             out[row] = copy.deepcopy(ch)    # the content of a %rewrite object is replaced as a whole: exactly the new lines, nested ones included
         else:
-            out[row] = expect(old.get(row, odict()), ch, ctx.child(r, row)) if is_block(r) else odict()
+            out[row] = expect(old.get(row, odict()), ch, ctx.child(r, row)) if blockish(ctx, r, row) else odict()
     for row, ch in old.items():
         cl = ctx.classify(row)
         if cl is None:
@@ -86,7 +86,7 @@ def expect(old, new, ctx: Ctx):
         r, key = cl
         ident = (r["id"], key)
         if r.get("logic") == "common.permanent" and not any(ctx.ident(n) == ident for n in new):
-            out[row] = expect(ch, odict(), ctx.child(r, row)) if is_block(r) else odict()
+            out[row] = expect(ch, odict(), ctx.child(r, row)) if blockish(ctx, r, row) else odict()
     return out
 
 
